@@ -166,6 +166,14 @@ def check_table(job):
         if not same(full, exp):
             bad("LookupLanguageModel.__call__", "value" if full.shape == exp.shape else "shape",
                 first_diff(full) if full.shape == exp.shape else "shape %s" % (tuple(full.shape),))
+        # the same history as a contiguous VIEW into a larger tensor (non-zero storage offset, e.g. big[1:])
+        if T > 0:
+            big = torch.cat([torch.full((2, B), V - 1, dtype=torch.long), hist, torch.zeros(1, B, dtype=torch.long)], 0)
+            view = big[2:2 + T]
+            got = lm(view).double()
+            if not same(got, exp):
+                bad("LookupLanguageModel.__call__", "value_view_with_storage_offset",
+                    "history given as a slice big[2:%d] of a larger tensor: %s" % (2 + T, first_diff(got) if got.shape == exp.shape else got.shape))
         for chunk in range(1, T + 2):
             got = lm.calc_full_log_probs_chunked(hist, dict(), chunk).double()
             if not same(got, exp):
